@@ -79,8 +79,8 @@ def check_eigh(ctx, A, v, m, kd, detail_extra=None, style=None):
 
 def exact_expm_apply(A, dt, v):
     """expm(dt A) v: through the eigen-decomposition for Hermitian A (accurate for long time steps), scipy's expm otherwise."""
-    if np.array_equal(A, A.conj().T):
-        lam, U = np.linalg.eigh(A)
+    if np.linalg.norm(A - A.conj().T) <= 1e-14 * max(np.linalg.norm(A), 1e-300):
+        lam, U = np.linalg.eigh((A + A.conj().T) / 2)
         return U @ (np.exp(dt * lam) * (U.conj().T @ v))
     return expm(dt * A) @ v
 
@@ -221,6 +221,31 @@ def large_case(ctx, idx, rng):
     check_expm(ctx, A, v, dt, m, kd, hermitian=True)
 
 
+def coefficient_zero_case(ctx, idx, rng):
+    """Time arguments tuned (Newton iteration in the complex plane) to a ZERO of one Krylov coefficient c_k(dt) = q_k^H exp(dt A) q_0 while later
+    coefficients are of order one: the exact result simply has no component along one Krylov vector. Iteration count = Krylov dimension (exactness demanded)."""
+    n = int(rng.integers(3, 9))
+    cplx = bool(rng.random() < 0.5)
+    spectrum = str(rng.choice(SPECTRA))
+    A, v = kr.make_case(rng, n, cplx, spectrum, str(rng.choice(['generic', 'real'])))
+    A = A / max(1.0, np.linalg.norm(A, 2) / 3)
+    hit = kr.coefficient_zero(rng, A, v)
+    if hit is None:
+        ctx.case(('coefficient-zero', 'none-found'), nontrivial=False)
+        ctx.event('coefficient_zero_not_found')
+        return
+    z, k = hit
+    res = kr.krylov_residuals(A, v, n + 1)
+    kd = kr.krylov_dim(res)
+    if any(1e-8 <= r <= 1e-5 for r in res[:n]):
+        ctx.case(('coefficient-zero', 'ambiguous-exhaustion'), nontrivial=False)
+        return
+    m = int(min(n, kd)) if rng.random() < 0.7 else n + 2
+    ctx.case(('coefficient-zero', f'n{n}', f'k{min(k, 3)}', spectrum, 'complex' if cplx else 'real'), sample={'n': n, 'm': m, 'A': A, 'v': v, 'dt': z, 'vanishing_coefficient': k})
+    check_expm(ctx, A, v, z, m, kd, hermitian=True)
+    check_expm(ctx, A, v, z, m, kd, hermitian=False)
+
+
 def f6_case(ctx, idx, rng):
     n = (40, 64, 100)[idx % 3]
     m = n - (0, 6, 30)[idx % 3]
@@ -246,6 +271,7 @@ SPEC = {
     'workloads': [
         Workload('grid', grid_case, quick=len(GRID) * 6, thorough=len(GRID) * 3000),
         Workload('large', large_case, quick=450, thorough=40000),
+        Workload('coefficient-zero', coefficient_zero_case, quick=200, thorough=20000),
         Workload('f6', f6_case, quick=6, thorough=240),
     ],
     'shards': {'quick': 1, 'thorough': 16},
